@@ -433,12 +433,14 @@ func (fc *FnCtx) doAppend(res ssa.Value, c *ssa.CallCommon, pos token.Pos) {
 	var n string
 	var elems []Val
 	var tailSeq [3]string // arr, off, len of appended sequence when not element-wise
+	var tailVal Val
 	haveElems := false
 	if es, ok := fc.varargsElems(c.Args[1]); ok {
 		elems, haveElems = es, true
 		n = fmt.Sprint(len(es))
 	} else {
 		tv := fc.val(c.Args[1])
+		tailVal = tv
 		n = tv.C[2]
 		if kindOf(et) == KInt {
 			a, o, l := fc.seqOf(tv, &fc.cur)
@@ -492,6 +494,14 @@ func (fc *FnCtx) doAppend(res ssa.Value, c *ssa.CallCommon, pos token.Pos) {
 			for k, ev := range elems {
 				fc.assert(fmt.Sprintf("(= (select %s (+ %s %s %d)) %s)", R, roff, s.C[2], k, ev.C[ci]))
 			}
+		} else if tailSeq[0] == "" && tailVal.K == KSlice {
+			// the appended slice's elements, component by component, read from the heap before the append (Go's
+			// append has memmove semantics for overlapping operands)
+			fc.nfresh++
+			q2 := fmt.Sprintf("k!q%d", fc.nfresh)
+			tarr := fmt.Sprintf("(select %s %s)", cur, tailVal.C[0])
+			fc.assert(fmt.Sprintf("(forall ((%s Int)) (! (=> (and (<= 0 %s) (< %s %s)) (= (select %s (+ %s %s %s)) (select %s (+ %s %s)))) :pattern ((select %s (+ %s %s %s)))))",
+				q2, q2, q2, n, R, roff, s.C[2], q2, tarr, tailVal.C[1], q2, R, roff, s.C[2], q2))
 		} else if tailSeq[0] != "" && ci == 0 {
 			fc.nfresh++
 			q2 := fmt.Sprintf("k!q%d", fc.nfresh)
